@@ -82,13 +82,17 @@ class Graph:
         return paths, partition
 
 
-def build_lib_fs(desc):
+def build_lib_fs(desc, ask=False):
     """library FeatureStructure from a node-list description through the public API"""
     from pyformlang.fcfg.feature_structure import FeatureStructure
     nodes = [FeatureStructure(n.get("value")) for n in desc]
     for fs, n in zip(nodes, desc):
         for f, j in n.get("content", {}).items():
             fs.add_content(f, nodes[j])
+            if ask:
+                # the structure answers queries while it is being built (nested nodes gain features afterwards)
+                nodes[0].get_all_paths()
+                repr(nodes[0])
     return nodes[0]
 
 
